@@ -1,0 +1,31 @@
+// Verification hooks: observation only. Built only with -tags verif.
+
+//go:build verif
+
+package stack
+
+import "io"
+
+// VerifScanTracer can be implemented by the io.Reader given to ScanSnapshot to
+// observe every line scanned and the scanner state before and after it.
+type VerifScanTracer interface {
+	VerifScanTrace(before, after string, line []byte, consumed bool, err error)
+}
+
+func verifTrace(in io.Reader, before, after state, line []byte, consumed bool, err error) {
+	if t, ok := in.(VerifScanTracer); ok {
+		t.VerifScanTrace(before.String(), after.String(), line, consumed, err)
+	}
+}
+
+// VerifSignatureLess exposes Signature.less.
+func VerifSignatureLess(a, b *Signature) bool { return a.less(b) }
+
+// VerifSignatureSimilar exposes Signature.similar.
+func VerifSignatureSimilar(a, b *Signature, s Similarity) bool { return a.similar(b, s) }
+
+// VerifSignatureEqual exposes Signature.equal.
+func VerifSignatureEqual(a, b *Signature) bool { return a.equal(b) }
+
+// VerifSignatureMerge exposes Signature.merge.
+func VerifSignatureMerge(a, b *Signature) *Signature { return a.merge(b) }
